@@ -501,7 +501,7 @@ def run(ck):
               "token preservation under css_guard is evaluated (model and real code), not proved")
     ck.trusted("harness/C34/c34_test.go (in-package overlay of internal/util/javascript), props/C34.py generators, CSS Syntax 3 tokenizer oracle and comparison",
                "correspondence and css_guard/preserved_b evaluated by vm_compute in a generated cases file")
-    ck.coq_stage(GROUP, theorems=["C34_refuted", "C34_essential_bytes_partial"])
+    ck.coq_stage(GROUP, theorems=["C34_refuted", "C34_essential_bytes_partial", "C34_separators_partial"])
     broken = getattr(ck, "coq_broken", None)
 
     ok, binp = vf.go_test_build(ck.work, "internal/util/javascript", {"internal/util/javascript/zz_verif_c34_test.go":
